@@ -229,11 +229,11 @@ def run(ctx):
 
     # ---------------------------------------------------------------- G
     if q:
-        runs = [dict(MaxN=4, MaxUnits=2, MaxEdges=2, MaxEdgesBig=1, Salt=ctx.seed % 97, EmitMod=2, CheckSplit="FALSE", KindN=2, FewSubsets="TRUE", RootEdges="TRUE")]
+        runs = [dict(MaxN=4, MaxUnits=2, MaxEdges=2, MaxEdgesBig=1, Salt=ctx.seed % 97, EmitMod=2, CheckSplit="FALSE", KindN=2, FewSubsets="TRUE", RootN=2)]
     else:
-        runs = [dict(MaxN=4, MaxUnits=2, MaxEdges=3, MaxEdgesBig=2, Salt=0, EmitMod=5, CheckSplit="TRUE", KindN=3, FewSubsets="FALSE", RootEdges="TRUE")] + \
-               [dict(MaxN=3, MaxUnits=2, MaxEdges=3, MaxEdgesBig=3, Salt=s, EmitMod=2, CheckSplit="FALSE", KindN=0, FewSubsets="FALSE", RootEdges="TRUE") for s in (1, 2, 3)] + \
-               [dict(MaxN=5, MaxUnits=2, MaxEdges=1, MaxEdgesBig=1, Salt=7, EmitMod=3, CheckSplit="FALSE", KindN=0, FewSubsets="FALSE", RootEdges="FALSE")]
+        runs = [dict(MaxN=4, MaxUnits=2, MaxEdges=3, MaxEdgesBig=2, Salt=0, EmitMod=5, CheckSplit="TRUE", KindN=3, FewSubsets="FALSE", RootN=3)] + \
+               [dict(MaxN=3, MaxUnits=2, MaxEdges=3, MaxEdgesBig=3, Salt=s, EmitMod=2, CheckSplit="FALSE", KindN=0, FewSubsets="FALSE", RootN=3) for s in (1, 2, 3)] + \
+               [dict(MaxN=5, MaxUnits=2, MaxEdges=1, MaxEdgesBig=1, Salt=7, EmitMod=3, CheckSplit="FALSE", KindN=0, FewSubsets="FALSE", RootN=0)]
     stats = {"runs": 0, "exact": 0, "expected_err": 0}
     decisive, dtags = set(), set()
     allk = set()
